@@ -23,7 +23,8 @@ Runs  == ndJsonDeserialize(IOEnv.CP_RUNS)
 Cases == ndJsonDeserialize(IOEnv.CP_CASES)
 ToNat(str) == CHOOSE n \in 0..200 : ToString(n) = str
 K == [fee |-> ToNat(IOEnv.PM_FEE), pct |-> ToNat(IOEnv.PM_PCT),
-      revokeValidates |-> IOEnv.PM_REVOKE_VALIDATES = "true"]
+      revokeValidates |-> IOEnv.PM_REVOKE_VALIDATES = "true",
+      vlim |-> ToNat(IOEnv.PM_VLIM)]   \* payment velocity limit of the nodes of this group of cases
 
 \* post = projection onto Payments' variables (per-hash ledger included); postx = the node's balance
 \* bookkeeping that policy.enforce_balance maintains (excess_amount)
